@@ -217,7 +217,8 @@ def harness(name, L, lossy, v, cap, wf, st):
     s += "    kani::cover!(out.reported_shutdown && m.dropped == %d && m.failed == %d && m.empties == %d);\n" % (
         st["dropped"], st["wfail"], st["empties"])
     if budget > 0:
-        s += "    kani::cover!(out.swallowed);\n"
+        # the flush of the batch that took Msg::Shutdown fails, and the worker still reports Shutdown
+        s += "    kani::cover!(out.reported_shutdown && m.flush_failed_at_shutdown);\n"
         if st["flushes"] >= 2:
             s += "    kani::cover!(out.reported_shutdown && m.flush_failed > 0);\n"
     if L >= 2:
